@@ -38,12 +38,15 @@ Definition struct_table : list (str * builtin) :=
     ([84;121;112;101;70;110], BType); ([86;97;108;117;101;115;70;110], BValues) ].
 
 (** [register_builtin_functions]: the generated registration list, in source order. *)
+Definition builtin_entries : list (str * fimpl) :=
+  flat_map (fun '(name, st, sg) =>
+              match obj_get struct_table st with
+              | Some b => [(name, FBuiltin b sg)]
+              | None => []
+              end) gen_registry.
+
 Definition register_builtins (rt : registry) : registry :=
-  fold_left (fun r '(name, st, sg) =>
-               match obj_get struct_table st with
-               | Some b => rt_register r name (FBuiltin b sg)
-               | None => r
-               end) gen_registry rt.
+  fold_left (fun r kv => rt_register r (fst kv) (snd kv)) builtin_entries rt.
 
 Definition default_runtime : registry := register_builtins [].
 
